@@ -735,11 +735,19 @@ Definition row_size (r : key * (N * bool * bool * bool)) : N := fst (fst (fst (s
 Definition row_evictable (r : key * (N * bool * bool * bool)) : bool :=
   snd (fst (fst (snd r))) && negb (snd (fst (snd r))).
 Definition row_node (r : key * (N * bool * bool * bool)) : bool := snd (snd r).
+Definition nodupb (l : list N) : bool :=
+  (fix go (l : list N) : bool := match l with [] => true | x :: t => negb (memN x t) && go t end) l.
 Definition snap_wf (cap : N) (n : snap) : bool :=
   (n_size n =? fold_right (fun r acc => row_size r + acc) 0 (n_blobs n)) &&
   (n_size n <=? cap) &&
-  list_eqb N.eqb (sort_keys (n_queue n)) (map fst (filter row_evictable (n_blobs n))) &&
-  forallb (fun r => Bool.eqb (row_node r) (row_evictable r)) (n_blobs n).
+  nodupb (n_queue n) &&
+  forallb (fun k => match assoc k (n_blobs n) with Some (_, c, b, _) => c && negb b | None => false end) (n_queue n) &&
+  forallb (fun r => Bool.eqb (row_node r) (row_evictable r) && Bool.eqb (row_evictable r) (memN (fst r) (n_queue n))) (n_blobs n).
+
+(* the oracle shared by C07 (Disk) and C08 (Memory): every observed result and snapshot is the one
+   the reference specification gives, and every observed snapshot is well formed on its own *)
+Definition lru_check (bk : backing) (cap : N) (ops : list op) (obs : list (out * snap)) : bool :=
+  obs_eqb (snd (srun bk (sinit cap) ops)) obs && forallb (fun x => snap_wf cap (snd x)) obs.
 
 (* ---------------------------------------------------------------- vocabulary of the theorem statements *)
 (* the key and scope an operation is issued with (through a scoped view of the store) *)
